@@ -11,6 +11,7 @@ CONSTANTS MaxDecls,     \* program length bound
           MinDecls,     \* a program is not finished before it has this many declarations
           BlockBudget,  \* a top-level block is closed after about this many declarations
           CallsOnly,    \* TRUE: programs are call graphs only (applications A, B, C with endpoints e1, e2)
+          MaxNest,      \* scope depth up to which statement blocks may open (application = 1, endpoint = 2)
           TypesOnly,    \* TRUE: applications contain type declarations only (data models)
           WithPlans     \* TRUE: also print file-partition plans for the finished program (C04)
 
@@ -124,8 +125,8 @@ Groups ==
          \cup {[k |-> "stmt", kind |-> "call", app |-> a, ep |-> e, text |-> "", tags |-> <<>>, attrs |-> <<>>, pos |-> NoPos] :
                  a \in (Apps \ {fr.app}) \cup {"."}, e \in (IF CallsOnly THEN EpNames ELSE {"Ep", "Op"})}
          \cup {[k |-> "stmt", kind |-> "ret", text |-> t, tags |-> <<>>, attrs |-> <<>>, pos |-> NoPos] :
-                 t \in {"ok", "ok <: T", "error <: string"}},
-         (IF Len(st.scope) < 5
+                 t \in {"ok", "ok <: T", "error <: string", "ok <: sequence of T", "ok <: set of U", "ok <: sequence of string"}},
+         (IF Len(st.scope) < MaxNest
                  THEN {[k |-> "block", kw |-> kw, text |-> t, pos |-> NoPos] :
                          kw \in {"if", "until", "while", "for each", "for", "alt"}, t \in Preds}
                       \cup {[k |-> "block", kw |-> "label", text |-> t, pos |-> NoPos] : t \in Texts}
